@@ -743,8 +743,10 @@ func modelServerStream(b []byte) *serverStreamModel {
 		}
 		if env.ID == atp.MessageTypeWorkDone {
 			m.terminal[env.RunID]++
+			// intact = the payload is a work-done message and nothing else (strict: a payload with the fields of an
+			// error message under a work-done ID is not a result)
 			var wd refWorkDone
-			if err := cbor.Unmarshal(env.Data, &wd); err == nil {
+			if err := strictDec.Unmarshal(env.Data, &wd); err == nil {
 				n, _ := Norm(wd.OutputData)
 				m.workDone[env.RunID] = append(m.workDone[env.RunID], deliveredWD{wd.OutputID, n})
 			}
@@ -960,6 +962,23 @@ func (e clientEngine) SubRuns(t *testing.T, batch string, baseTape func() *rt.Ta
 				f.WriteAt = (k * 31) % (clientLen + 1)
 			}
 			out = append(out, mustJSON(f))
+		}
+	}
+	// message-type confusion: one flipped byte that turns the message ID of a v3 runtime message into another valid
+	// message ID (an error into a work-done, a signal into an error ...); the envelope stays well-formed
+	if batch == "c08.crash" {
+		rec := obs.S2C.Record
+		starts := append([]int64{0}, obs.S2C.WriteEnds()...)
+		for _, b := range starts {
+			// canonical CBOR: a3 62 'i' 'd' <id> 64 'd' 'a' 't' 'a' ...
+			if b+5 <= L && rec[b] == 0xa3 && rec[b+1] == 0x62 && rec[b+2] == 'i' && rec[b+3] == 'd' && rec[b+4] >= 1 && rec[b+4] <= 6 {
+				cur := int(rec[b+4])
+				for id := 1; id <= 6; id++ {
+					if id != cur {
+						out = append(out, mustJSON(ClientFault{Base: runIdx, Kind: "flip", At: b + 4, Mask: cur ^ id, WriteAt: -1}))
+					}
+				}
+			}
 		}
 	}
 	return out
